@@ -10,16 +10,22 @@ Proved for all inputs:
   append path is the list of roots of the perfect subtrees of the binary decomposition of the size;
 * `C11_predicted_append` — `CalculateRootFromAppendPath` agrees with `Append` on every reachable state;
 * `C11_reload` — the stored information always equals (root, append path, size) once a leaf exists;
-* `C11_proof_complete_partial`, `C11_proof_sound_partial`, `C11_proof_other_root_partial` — the LIP-0031
-  inclusion path of a leaf folds to the root; under injectivity of the branch hash nothing else of
-  that shape does (other leaf data, other siblings, other root);
+* `C11_path_complete`, `C11_path_sound`, `C11_path_other_leaf`, `C11_path_one_root` — the LIP-0031 inclusion
+  path of a leaf folds to the root; under injectivity of the branch hash nothing else of that shape does;
+* `C11_proof_sound`, `C11_proof_other_leaf`, `C11_proof_one_root` — `VerifyProof` (the transcription of
+  `calculatePathNodes` with its index arithmetic) for one index: if it accepts, the query is the hash of
+  the leaf at that index and the sibling hashes it consumed are the LIP-0031 path; other leaf data and
+  other roots are rejected;
+* `C11_proof_complete_partial` — `VerifyProof` accepts the LIP-0031 path of every leaf (trees whose
+  indexes fit the 32-bit index parser, height ≤ 30); that `GenerateProof` produces this path is checked
+  by the harness (`single-proof-not-reference-path` oracle, `specpath` op), not proved;
 * `C11_right_witness_partial` — the append path alone (split point 0 or `size`) reconstructs the root.
 Kept as statements (checked by the correspondence harness on the real code, not proved here):
-the link between the index arithmetic of `calcPathNodes`/`getSiblingHashes` and the LIP-0031 path
-(`C11_proof_complete_Statement`, `C11_proof_sound_Statement`), `C11_update_via_proof_Statement`,
-`C11_right_witness_Statement`, `C11_store_Statement`.
+`C11_proof_complete_Statement` (generation, any subset), `C11_proof_sound_multi_Statement`,
+`C11_update_via_proof_Statement`, `C11_right_witness_Statement`, `C11_store_Statement`.
 -/
 import LiskVerif.Lemmas.RMT
+import LiskVerif.Lemmas.RMTProof
 
 open LiskVerif LiskVerif.RMT
 
@@ -225,29 +231,29 @@ example : ∃ t : Tree, C11.Reach ⟨id, fun l r => l ++ r, []⟩ t ∧ t.core.s
   refine ⟨_, C11.Reach.append [7] C11.Reach.init, ?_⟩
   decide
 
-/-! ### inclusion proofs (LIP-0031 path) -/
+/-! ### inclusion proofs: the LIP-0031 path -/
 
 /-- Completeness: the inclusion path of leaf `i` folds to the root. -/
-theorem C11_proof_complete_partial (hf : HashFns) (l : List Bytes) (i : Nat) (h : Bytes)
+theorem C11_path_complete (hf : HashFns) (l : List Bytes) (i : Nat) (h : Bytes)
     (hi : l[i]? = some h) : foldProof hf h (pathSpec hf l i) = rootH hf l :=
   foldProof_pathSpec hf l.length l i h rfl hi
 
 /-- Soundness: if the branch hash is injective, a path with the shape (left/right pattern) of
 position `i` that folds from `h` to the root proves that `h` is the `i`-th leaf hash and is the path
 of that leaf: no other leaf hash and no other sibling verifies. -/
-theorem C11_proof_sound_partial (hf : HashFns) (hinj : BranchInj hf) (l : List Bytes) (i : Nat)
+theorem C11_path_sound (hf : HashFns) (hinj : BranchInj hf) (l : List Bytes) (i : Nat)
     (hi : i < l.length) (h : Bytes) (p : List (Bool × Bytes))
     (hshape : p.map (·.1) = (pathSpec hf l i).map (·.1)) (hfold : foldProof hf h p = rootH hf l) :
     l[i]? = some h ∧ p = pathSpec hf l i :=
   foldProof_sound hf hinj l.length l i h p rfl hi hshape hfold
 
 /-- In terms of leaf data: with an injective leaf hash, other data at position `i` is rejected. -/
-theorem C11_proof_other_leaf_partial (hf : HashFns) (hinj : BranchInj hf)
+theorem C11_path_other_leaf (hf : HashFns) (hinj : BranchInj hf)
     (hleaf : ∀ a b, hf.leaf a = hf.leaf b → a = b) (data : List Bytes) (i : Nat) (hi : i < data.length)
     (d : Bytes) (hd : data[i]? ≠ some d) :
     foldProof hf (hf.leaf d) (pathSpec hf (data.map hf.leaf) i) ≠ root hf data := by
   intro hfold
-  have := (C11_proof_sound_partial hf hinj (data.map hf.leaf) i (by simpa using hi) (hf.leaf d) _ rfl hfold).1
+  have := (C11_path_sound hf hinj (data.map hf.leaf) i (by simpa using hi) (hf.leaf d) _ rfl hfold).1
   rw [List.getElem?_map] at this
   cases hx : data[i]? with
   | none => rw [hx] at this; cases this
@@ -256,14 +262,87 @@ theorem C11_proof_other_leaf_partial (hf : HashFns) (hinj : BranchInj hf)
     have : x = d := hleaf _ _ (Option.some.inj this)
     exact hd (by rw [hx, this])
 
-/-- A proof verifies against exactly one root. -/
-theorem C11_proof_other_root_partial (hf : HashFns) (l : List Bytes) (i : Nat) (h r : Bytes)
+/-- A path verifies against exactly one root. -/
+theorem C11_path_one_root (hf : HashFns) (l : List Bytes) (i : Nat) (h r : Bytes)
     (hi : l[i]? = some h) : foldProof hf h (pathSpec hf l i) = r ↔ r = rootH hf l := by
-  rw [C11_proof_complete_partial hf l i h hi]; exact eq_comm
+  rw [C11_path_complete hf l i h hi]; exact eq_comm
 
 example : foldProof ⟨id, fun l r => l ++ r, []⟩ [2] (pathSpec ⟨id, fun l r => l ++ r, []⟩ [[1], [2], [3]] 1)
     = rootH ⟨id, fun l r => l ++ r, []⟩ [[1], [2], [3]] :=
-  C11_proof_complete_partial _ _ 1 [2] rfl
+  C11_path_complete _ _ 1 [2] rfl
+
+/-! ### inclusion proofs: `VerifyProof` with its index arithmetic, one index -/
+
+/-- Soundness of `VerifyProof` for one index: in a tree over the leaf hashes `l`, if the proof
+`(size, [2^height + i], siblingHashes)` for the query hash `q` is accepted against the root of `l`,
+then `q` is the hash of leaf `i`, and the sibling hashes that were consumed are exactly the LIP-0031
+path of that leaf. (Injectivity of the branch hash is the only assumption.) -/
+theorem C11_proof_sound (hf : HashFns) (hinj : BranchInj hf) (l : List Bytes) (i : Nat)
+    (hi : i < l.length) (q : Bytes) (sibs : List Bytes)
+    (h : verifyProof hf [q] ⟨l.length, [2 ^ getHeight l.length + i], sibs⟩ (rootH hf l) = true) :
+    l[i]? = some q ∧ (pathSpec hf l i).map (·.2) <+: sibs := by
+  have hw := verify_single_walk hf l.length i (by omega) hi q sibs _ h
+  obtain ⟨p, hp1, hp3, hp2⟩ := walk_foldProof hf _ _ _ _ _ _ _ hw
+  rw [← pathSpec_sides hf l.length l i rfl (by omega) hi] at hp1
+  obtain ⟨h1, h2⟩ := C11_path_sound hf hinj l i hi q p hp1 hp2
+  exact ⟨h1, by rw [← h2]; exact hp3⟩
+
+/-- Other leaf data is rejected: a proof accepted for the data `d` at index `i` shows that the
+`i`-th leaf is `d` (leaf hash injective). -/
+theorem C11_proof_other_leaf (hf : HashFns) (hinj : BranchInj hf)
+    (hleaf : ∀ a b, hf.leaf a = hf.leaf b → a = b) (data : List Bytes) (i : Nat) (hi : i < data.length)
+    (d : Bytes) (sibs : List Bytes)
+    (h : verifyProof hf [hf.leaf d] ⟨data.length, [2 ^ getHeight data.length + i], sibs⟩ (root hf data) = true) :
+    data[i]? = some d := by
+  have hlen : (data.map hf.leaf).length = data.length := by simp
+  have := (C11_proof_sound hf hinj (data.map hf.leaf) i (by simpa using hi) (hf.leaf d) sibs
+    (by rw [hlen]; exact h)).1
+  rw [List.getElem?_map] at this
+  cases hx : data[i]? with
+  | none => rw [hx] at this; cases this
+  | some x =>
+    rw [hx] at this
+    rw [hleaf _ _ (Option.some.inj this)]
+
+/-- A proof is accepted for at most one root. -/
+theorem C11_proof_one_root (hf : HashFns) (q : List Bytes) (p : Proof) (r r' : Bytes)
+    (h : verifyProof hf q p r = true) (h' : verifyProof hf q p r' = true) : r = r' := by
+  unfold verifyProof at h h'
+  by_cases hz : p.size = 0
+  · simp [hz] at h
+  · simp only [hz, if_false] at h h'
+    cases hc : calcPathNodes hf q p.size p.idxs p.sibs with
+    | none => simp [hc] at h
+    | some res =>
+      rw [hc] at h h'
+      simp only at h h'
+      cases hl : res.lookup 2 with
+      | none => simp [hl] at h
+      | some x =>
+        rw [hl] at h h'
+        simp only [beq_iff_eq] at h h'
+        rw [← h, ← h']
+
+/-- Completeness of `VerifyProof` for one index: the LIP-0031 path of leaf `i` is accepted (for trees
+of height at most 30, i.e. at most 2^29 leaves: above, the 32-bit index parser of the implementation
+returns an error). -/
+theorem C11_proof_complete_partial (hf : HashFns) (l : List Bytes) (i : Nat) (q : Bytes)
+    (hi : l[i]? = some q) (hb : getHeight l.length ≤ 30) (extra : List Bytes) :
+    verifyProof hf [q] ⟨l.length, [2 ^ getHeight l.length + i], (pathSpec hf l i).map (·.2) ++ extra⟩
+      (rootH hf l) = true := by
+  have hil : i < l.length := by
+    rcases Nat.lt_or_ge i l.length with h' | h'
+    · exact h'
+    · rw [List.getElem?_eq_none h'] at hi; cases hi
+  apply verify_single_complete hf l.length i (by omega) hil hb
+  rw [walk_of_foldProof hf l.length i _ 0 q (pathSpec hf l i) extra
+    (pathSpec_sides hf l.length l i rfl (by omega) hil)]
+  rw [C11_path_complete hf l i q hi]
+
+example : verifyProof ⟨id, fun l r => l ++ r, []⟩ [[2]]
+    ⟨3, [2 ^ getHeight 3 + 1], (pathSpec ⟨id, fun l r => l ++ r, []⟩ [[1], [2], [3]] 1).map (·.2) ++ []⟩
+    (rootH ⟨id, fun l r => l ++ r, []⟩ [[1], [2], [3]]) = true :=
+  C11_proof_complete_partial ⟨id, fun l r => l ++ r, []⟩ [[1], [2], [3]] 1 [2] rfl (by decide) []
 
 /-! ### right witness -/
 
@@ -313,14 +392,13 @@ def C11_proof_complete_Statement : Prop :=
     q ≠ [] → q.Nodup → (∀ h ∈ q, h ∈ data.map hf.leaf) →
     ∃ p, generateProof t q = some p ∧ verifyProof hf q p t.core.root = true
 
-/-- Full soundness: under injectivity of the branch hash and separation of leaf and branch hashes,
-a proof that `verifyProof` accepts for a single index `2^height + i` shows that the query is the
-`i`-th leaf hash. -/
-def C11_proof_sound_Statement : Prop :=
-  ∀ (hf : HashFns), BranchInj hf → ∀ (l : List Bytes) (i : Nat) (q : Bytes) (sibs : List Bytes),
-    i < l.length →
-    verifyProof hf [q] ⟨l.length, [2 ^ getHeight l.length + i], sibs⟩ (rootH hf l) = true →
-    l[i]? = some q
+/-- Soundness for several indexes: an accepted proof for distinct leaf indexes shows that every query
+is the hash of the leaf at its index. -/
+def C11_proof_sound_multi_Statement : Prop :=
+  ∀ (hf : HashFns), BranchInj hf → ∀ (l : List Bytes) (pos : List Nat) (q sibs : List Bytes),
+    pos.Nodup → (∀ p ∈ pos, p < l.length) → q.length = pos.length →
+    verifyProof hf q ⟨l.length, pos.map (fun p => 2 ^ getHeight l.length + p), sibs⟩ (rootH hf l) = true →
+    ∀ k (hk : k < pos.length), l[pos[k]]? = q[k]?
 
 /-- `Update` through a proof yields the tree of the modified list. -/
 def C11_update_via_proof_Statement : Prop :=
